@@ -1,5 +1,6 @@
 CONSTANTS MaxEdits = 2
- Cfgs = {"none", "unsafeB", "unsafeA", "passB", "unsafeOwn", "passOwn"}
+ Cfgs = {"none", "unsafeB", "unsafeA", "passB", "unsafeOwn", "passOwn", "passPath", "unsafePath"}
+ InitVals = {"unset", "v0"}
  HashValues = TRUE
  EmitAll = FALSE
 SPECIFICATION Spec
